@@ -125,6 +125,22 @@ Proof.
 Qed.
 Print Assumptions C06_queue_remove.
 
+(* coap_cancel_all_messages / coap_cancel_session_messages (cancel by session + token, by session):
+   exactly the matching nodes disappear, every other node keeps its deadline and place *)
+Theorem C06_queue_cancel : forall p q base,
+  sq_abs base (snd (sq_cancel p q)) = filter (fun e => negb (p (snd e))) (sq_abs base q) /\
+  fst (sq_cancel p q) = filter p (map snd q).
+Proof. exact sq_abs_cancel. Qed.
+Print Assumptions C06_queue_cancel.
+
+(* as the two functions were before /repo f424a16 (plain unlinking) this failed: the nodes behind
+   a cancelled one - of any session - became due earlier (finding F06-1, fixed) *)
+Theorem C06_queue_cancel_prefix_refuted : exists p q base,
+  sq_wf q /\
+  sq_abs base (snd (sq_cancel_nobump p q)) <> filter (fun e => negb (p (snd e))) (sq_abs base q).
+Proof. exact sq_cancel_nobump_shifts. Qed.
+Print Assumptions C06_queue_cancel_prefix_refuted.
+
 (* coap_adjust_basetime: moving the base backwards keeps every deadline ... *)
 Theorem C06_adjust_basetime_back : forall base q now c b' q',
   now <= base -> sq_adjust_basetime base q now = (c, b', q') ->
